@@ -28,7 +28,8 @@ class Job:
                  enforce=None, enforce_rec=False, replace=(), loop_contracts=False, spec=(), flags=(),
                  unwindset=None, unwind=None, timeout=900, mem_gb=24, canary=True, tier='quick',
                  post=None, hooks=None, replay=None, route='loop-free', note='', expect=(), defines=(),
-                 backend='minisat', no_restore=False, bounded=None, known=None, pre_text='', post_spec=(), force_globals=(), stubs=()):
+                 backend='minisat', no_restore=False, bounded=None, known=None, pre_text='', post_spec=(), force_globals=(), stubs=(), gb=2):
+        self.gb = gb                # expected peak memory of the cbmc process in GB (the runner keeps the sum of running groups under a budget)
         self.stubs = tuple(stubs)   # subset of `replace`: contract applied in stub form by the extractor instead of by goto-instrument
         self.name = name
         self.tus = tus
@@ -561,9 +562,26 @@ def run_check(pid, module, tier, seed):
     nwork = int(os.environ.get('VERIF_JOBS', '14'))
     results = []
     print('[vcheck] %s tier=%s seed=%d: %d obligation groups, %d workers' % (pid, tier, seed, len(jobs), nwork), flush=True)
+    # memory budget: groups run concurrently only while the sum of their expected peaks stays under VERIF_MEM_GB (default 40)
+    budget = float(os.environ.get('VERIF_MEM_GB', '40'))
+    cond = threading.Condition()
+    state = {'avail': budget}
+
+    def run_budgeted(j):
+        need = min(float(getattr(j, 'gb', 2)), budget)
+        with cond:
+            while state['avail'] < need:
+                cond.wait()
+            state['avail'] -= need
+        try:
+            return run_job(j, workroot)
+        finally:
+            with cond:
+                state['avail'] += need
+                cond.notify_all()
     with ThreadPoolExecutor(max_workers=nwork) as ex:
         from concurrent.futures import as_completed
-        futs = [ex.submit(run_job, j, workroot) for j in jobs]
+        futs = [ex.submit(run_budgeted, j) for j in jobs]
         for f in as_completed(futs):
             r = f.result()
             results.append(r)
